@@ -116,3 +116,17 @@ def std_shims() -> List[Shim]:
             "isinstance(scalar,(int,float)) in Vector.__mul__ must accept proxies",
         ),
     ]
+
+
+def numeric_shims(*modules: str) -> List[Shim]:
+    """Pre-install int/float/round/math shims in a module even if its current source does
+    not use them: a changed tree that introduces int(x)/math.floor(x) on a symbolic value
+    must be *decided*, not crash the harness at a C boundary."""
+    out = []
+    for m in modules:
+        mod = importlib.import_module(m)
+        out.append(Shim(m, "int", core.sym_int, "int() is C (robustness against changed code)"))
+        out.append(Shim(m, "float", core.sym_float, "float() is C (robustness against changed code)"))
+        if "math" in mod.__dict__:
+            out.append(Shim(m, "math", SYM_MATH, "math.* is C"))
+    return out
